@@ -11,9 +11,9 @@ import (
 
 func init() {
 	register(&Rule{
-		ID: "C24",
+		ID:      "C24",
 		Explain: "Decides RPC gating for every request sequence as shape facts of the dispatcher: every handler call in AgentIPC.handleRequest except the handshake is unreachable once the edges establishing 'version != 0' (and 'command == handshake') are cut, and every handler call except handshake and auth is unreachable once the edges establishing 'no auth key configured', 'didAuth', 'command == auth' and 'command == handshake' are cut; each call sits in the switch arm of its own command constant (the command is never written); handlers are called from nowhere else and the dispatcher only from the client loop; IPCClient.version is written only by the handshake handler behind version-in-range ∧ not-yet-set, didAuth only by the auth handler behind key equality; both reject paths send a header carrying the request's sequence number and a non-empty constant error before returning; the dispatcher itself touches no agent state.",
-		Run: runC24,
+		Run:     runC24,
 		Mutants: []Mutant{
 			{Name: "rename-locals", Equivalent: true, Regexp: true, File: "cmd/serf/command/agent/ipc.go", Func: "func (i *AgentIPC) handleHandshake(", Old: `\b(req|resp)\b`, New: "${1}Renamed"},
 			{Name: "stats-before-auth", File: "cmd/serf/command/agent/ipc.go", Func: "func (i *AgentIPC) handleRequest(", Old: "\t// Ensure the client has authenticated after the handshake if necessary\n", New: "\tif command == statsCommand {\n\t\treturn i.handleStats(client, seq)\n\t}\n", Expect: "R1"},
@@ -26,9 +26,9 @@ func init() {
 		},
 	})
 	register(&Rule{
-		ID: "C25",
+		ID:      "C25",
 		Explain: "Decides reply correlation and stream well-formedness structurally: every responseHeader built anywhere in the agent package takes Seq from the handler's seq parameter (which at every call site is the request header's Seq) or from a stream's seq field (written only by its constructor from the seq argument); an event stream enqueues an event only behind some filter's Invoke(e)==true, non-blockingly, and has one consumer goroutine; a query stream emits an ack/response record only for a value actually received from the query's channels (receives from closable channels are comma-ok with the not-ok edge leaving the case without emitting), builds records only from received values, and sends the completion record only from the timer case, after which it returns.",
-		Run: runC25,
+		Run:     runC25,
 		Mutants: []Mutant{
 			{Name: "request-header-reused", File: "cmd/serf/command/agent/ipc.go", Func: "func (i *AgentIPC) handleClient(", Old: "\tfor {\n", New: "\tvar reqHeader requestHeader\n\tfor {\n", Old2: "\t\tvar reqHeader requestHeader\n", New2: "", Expect: "R5"},
 			{Name: "reply-with-zero-seq", File: "cmd/serf/command/agent/ipc.go", Func: "func (i *AgentIPC) handleStats(", Old: "\t\tSeq:   seq,\n", New: "\t\tSeq:   0,\n", Expect: "R1"},
